@@ -27,6 +27,9 @@ def run(tier="quick", seed=0):
     ev, viol, distinct, samples = 0, [], set(), []
     sent = []
 
+    fail_at = [None, None]       # [index of the send() that fails, exception to raise]: the datagram is NOT transmitted
+    n_sends = [0]
+
     class Sock(object):
         def __init__(self, *a):
             pass
@@ -35,6 +38,9 @@ def run(tier="quick", seed=0):
             sent.append(("connect", addr))
 
         def send(self, data):
+            n_sends[0] += 1
+            if fail_at[0] is not None and n_sends[0] - 1 == fail_at[0]:
+                raise fail_at[1]
             sent.append(("send", bytes(data)))
 
         def close(self):
@@ -54,10 +60,12 @@ def run(tier="quick", seed=0):
                 f.write(bytes((i * 13 + 5) % 256 for i in range(n)))
         return p
 
-    def one_boot(host, image_len, kwargs, via_dict):
+    def one_boot(host, image_len, kwargs, via_dict, path=None):
         """-> (why or None).  Runs the real boot() and checks everything this call sent."""
         del sent[:]
-        path = None if image_len is None else image_file(image_len)
+        n_sends[0] = 0
+        if path is None:
+            path = None if image_len is None else image_file(image_len)
         image = real_image if image_len is None else open(path, "rb").read()
         if via_dict in ("controller", "controller_dict"):
             # through MachineController.boot(), which forwards its keyword arguments to boot()
@@ -171,12 +179,60 @@ def run(tier="quick", seed=0):
                             viol.append({"id": "hist_%d" % ev, "clause": "boot_history", "why": "second boot: %s" % w2 if w2 else "first boot: %s" % w1,
                                          "inputs": {"first": first, "first_via_sv_overrides": via1, "second": second, "second_via_sv_overrides": via2}})
         samples.append({"history": [{"options": presets[1]}, {"options": {}}], "image_len": 1028})
+        # (c) the image file REPLACED between two boots (same path, other length and content): each boot sends the file as it
+        #     is when that boot is made
+        same = os.path.join(tmpdir, "same_path.boot")
+        for len1, len2 in ((3088, 5120), (5120, 3088), (1024, 1028), (2048, 2048)):
+            for via in (False, "controller"):
+                ev += 2
+                with open(same, "wb") as f:
+                    f.write(bytes((i * 7 + len1) % 256 for i in range(len1)))
+                w1 = one_boot("localhost", len1, dict(presets[1]), via, path=same)
+                with open(same, "wb") as f:
+                    f.write(bytes((i * 11 + 3) % 256 for i in range(len2)))
+                w2 = one_boot("localhost", len2, dict(presets[2]), via, path=same)
+                distinct.add(("rewritten", len1, len2, via))
+                if (w1 or w2) and len(viol) < 6:
+                    viol.append({"id": "rewritten_%d" % ev, "clause": "boot_history", "why": ("second boot, after the image file was replaced: %s" % w2) if w2 else "first boot: %s" % w1,
+                                 "inputs": {"same_path": True, "first_image_len": len1, "second_image_len": len2, "via": via}})
+        # (d) a datagram the socket refuses to send: boot() must not return normally as if the machine had been given it
+        import errno
+        img = image_file(6144)
+        for exc_name, exc in (("ConnectionRefusedError", ConnectionRefusedError(errno.ECONNREFUSED, "Connection refused")),
+                              ("OSError(EHOSTUNREACH)", OSError(errno.EHOSTUNREACH, "No route to host")),
+                              ("OSError(ENETUNREACH)", OSError(errno.ENETUNREACH, "Network is unreachable"))):
+            for k in range(0, 8):
+                ev += 1
+                del sent[:]
+                n_sends[0] = 0
+                fail_at[0], fail_at[1] = k, exc
+                try:
+                    B.boot("h", scamp_binary=img, boot_delay=0, post_boot_delay=0)
+                    returned = True
+                except OSError:
+                    returned = False
+                except Exception as e:      # noqa
+                    returned = "%s: %s" % (type(e).__name__, e)
+                finally:
+                    fail_at[0] = None
+                distinct.add(("refused", exc_name, k))
+                dgs_ = [d[1] for d in sent if d[0] == "send"]
+                n_dg = len(dgs_)
+                cmds = [struct.unpack("!H4I", d[:18])[1:3] for d in dgs_]
+                complete = cmds == [(1, 0)] + [(3, (255 << 8) | j) for j in range(6)] + [(5, 1)]
+                if returned is True and complete:
+                    continue            # (an implementation that sends the refused datagram again and completes is fine)
+                if returned is not False and len(viol) < 6:
+                    viol.append({"id": "refused_%d" % ev, "clause": "single_boot",
+                                 "why": "send() number %d raised %s (that datagram never left); boot() %s with %d of the 8 datagrams sent" % (
+                                     k, exc_name, "returned normally" if returned is True else "raised " + str(returned), n_dg),
+                                 "inputs": {"image_len": 6144, "failing_send": k, "exception": exc_name}})
     finally:
         B.socket.socket, B.time.sleep, B.time.time = real_socket, real_sleep, real_time
         for f in os.listdir(tmpdir):
             os.unlink(os.path.join(tmpdir, f))
         os.rmdir(tmpdir)
     return {"name": "c20_boot", "evaluations": ev, "distinct_nontrivial": len(distinct),
-            "rule": "real boot() over a recording socket and frozen clock: image lengths %s (None = the bundled scamp.boot) x 4 option sets x options passed as keywords / as sv_overrides / as keywords of MachineController.boot (three image lengths); every decodable system variable of the configuration area on its own (default + 1) in the sv_overrides dictionary of boot() and of MachineController.boot(); two-boot histories (3 first option sets x 2 second x 4 ways of passing); checks connect, start(n-1), blocks 0..n-1 with a1=(255<<8)|k and <= 1 KiB, end(1), un-swapped concatenation == image outside bytes 384..511, every decodable system variable in the configuration area == this call's option else the struct file's default, returned structs pack to the area sent" % (sizes,),
+            "rule": "real boot() over a recording socket and frozen clock: image lengths %s (None = the bundled scamp.boot) x 4 option sets x options passed as keywords / as sv_overrides / as keywords of MachineController.boot (three image lengths); every decodable system variable of the configuration area on its own (default + 1) in the sv_overrides dictionary of boot() and of MachineController.boot(); two-boot histories (3 first option sets x 2 second x 4 ways of passing); the image file replaced under the same path between two boots (4 length pairs x boot() / MachineController.boot()); a send() that raises (connection refused / host / network unreachable) at each of the 8 datagrams of a 6 KiB boot: boot() must not return normally; checks connect, start(n-1), blocks 0..n-1 with a1=(255<<8)|k and <= 1 KiB, end(1), un-swapped concatenation == image outside bytes 384..511, every decodable system variable in the configuration area == this call's option else the struct file's default, returned structs pack to the area sent" % (sizes,),
             "bound": "listed sizes, option sets and two-boot histories", "exhaustive": False, "label": "bounded",
             "samples": samples, "violations": viol, "seconds": round(_time.time() - t0, 2)}
